@@ -15,7 +15,7 @@ git -C /repo worktree add -q --detach "$WT" HEAD || exit 2
 mkdir -p "$CACHE"
 cp -a "$VERIF/.cache/gram-target" "$CACHE/gram-target" 2>/dev/null
 cp -a "$VERIF/.cache/harness-target" "$CACHE/harness-target" 2>/dev/null
-if ! git -C "$WT" apply "$PATCH"; then echo "AUDIT $NAME: patch does not apply"; git -C /repo worktree remove --force "$WT"; exit 2; fi
+if ! git -C "$WT" apply "$PATCH" 2>/dev/null && ! ( cd "$WT" && patch -p1 --fuzz=3 -s < "$PATCH" ); then echo "AUDIT $NAME: patch does not apply"; git -C /repo worktree remove --force "$WT"; exit 2; fi
 if [ "${AUDIT_SKIP_TESTS:-0}" != 1 ]; then
   T=$( cd "$WT" && CARGO_TARGET_DIR="$CACHE/test-target" cargo test --workspace --no-fail-fast --offline 2>&1 | grep "test result" | head -1 )
   echo "AUDIT $NAME: tests: $T"
